@@ -12,7 +12,7 @@ MANIFEST = dict(
 
 RULE = 'histories dense in reports, transmit expiries and responses; counter start in {0,5,2^24-2,2^24-1}; maxRetrans 0..3'
 
-GEN = dict(weights=dict(usa=22, dld=16, timeout=26, srr=20, otherrsp=6, est=12, mod=6, dele=4), big_seids=False, p_alias=0.06, p_wfail=0.2)
+GEN = dict(weights=dict(usa=22, dld=16, timeout=26, srr=20, otherrsp=6, est=12, mod=6, dele=4), big_seids=False, p_alias=0.06, p_wfail=0.2, p_wfail_recv=0.05)
 N_QUICK, N_THOROUGH = 120, 3000
 
 
